@@ -425,9 +425,10 @@ def _capture_start(ctx, eng, molecules, topology, box):
                 ctx.supplied[(m, n)] = p.copy()
     ctx.rec.emit("engine", n=len(node_type), supplied=len(ctx.supplied), box=np.array(box, dtype=float))
     nres = len(node_type)
-    ntape = sum(len(v) for v in ctx.tape.lanes.values())
-    ctx.update_cap = 60 * nres + 30 * ntape + 1000
-    ctx.cand_cap = 400 * nres + 150 * ntape + 5000
+    lanes = ctx.tape.lanes
+    nstep = len(lanes.get("step", ())) + len(lanes.get("start", ())) + 8 * len(lanes.get("attempt", ()))
+    ctx.update_cap = 60 * nres + 4 * nstep + 1000
+    ctx.cand_cap = 400 * nres + 3 * len(lanes.get("overlap", ())) + 120 * nstep + 5000
     # full-build molecules with all positions are skipped -> accepted from the start
     for m, mol in enumerate(molecules):
         if m not in ctx.ignored_mols and all("position" in mol.nodes[n] for n in mol.nodes):
@@ -730,10 +731,11 @@ def write_inputs(job, workdir):
     for fn, txt in files.items():
         with open(os.path.join(workdir, fn), "w") as fh:
             fh.write(txt)
-    if job.get("build_spec") is not None or job.get("bld_templates") or job.get("bld_volumes"):
+    if job.get("build_spec") is not None or job.get("bld_templates") or job.get("bld_volumes") or job.get("bld_bending"):
         from gen import bldgen
         job = dict(job)
-        job["build_file"] = bldgen.render(job.get("build_spec"), job.get("bld_templates"), job.get("bld_volumes"))
+        job["build_file"] = bldgen.render(job.get("build_spec"), job.get("bld_templates"), job.get("bld_volumes"),
+                                          job.get("bld_bending"))
     if job.get("build_file"):
         with open(os.path.join(workdir, "opts.bld"), "w") as fh:
             fh.write(job["build_file"])
@@ -760,7 +762,8 @@ def gen_coords_kwargs(job, workdir):
     for k in ("build_res", "ignore", "cycles", "split", "ligands", "start"):
         if o.get(k):
             kw[k] = list(o[k])
-    if job.get("build_file") or job.get("build_spec") is not None or job.get("bld_templates") or job.get("bld_volumes"):
+    if job.get("build_file") or job.get("build_spec") is not None or job.get("bld_templates") or job.get("bld_volumes") \
+            or job.get("bld_bending"):
         kw["build"] = [Path(workdir) / "opts.bld"]
     if job.get("grid_points") is not None:
         kw["grid"] = str(Path(workdir) / "grid.dat")
